@@ -84,8 +84,14 @@ def decide(pid, tier, seed, prop, replay, t0, ck):
         # ---- 2. corpus first, then the campaigns
         if replay:
             rj = json.load(open(replay))
-            lines = [rj["case"]] if rj.get("case") else [d["case"] for d in rj.get("correspondence_disagreements", [])]
+            if rj.get("group_cases"):
+                lines = [g["case"] for g in rj["group_cases"]]
+            else:
+                lines = [rj["case"]] if rj.get("case") else [d["case"] for d in rj.get("correspondence_disagreements", [])]
             rows = ck.run_cases([l.split(" || ")[0] for l in lines])
+            post = prop.get("group_oracle")
+            if post:
+                rows = post(rows, ck)
             account(rows, "replay")
         else:
             corpus = []
@@ -136,8 +142,12 @@ def decide(pid, tier, seed, prop, replay, t0, ck):
     rc = 0
     if unknown_rej:
         c, r, d, why = min(unknown_rej, key=lambda x: len(x[0]))
-        path = write_replay(ROOT, pid, seed, dict(kind="failing-input", why=why, case=c, impl=r, driver=d,
-                                                  replay_cmd="./check.py %s quick --replay <this file>" % pid), c, r)
+        det = dict(kind="failing-input", why=why, case=c, impl=r, driver=d,
+                   replay_cmd="./check.py %s quick --replay <this file>" % pid)
+        if "group=" in why:
+            # a group violation (same stream, different segmentation / unread bytes): keep the whole group
+            det["group_cases"] = [dict(case=c2, impl=r2) for c2, r2, d2, w2 in unknown_rej if w2 == why]
+        path = write_replay(ROOT, pid, seed, det, c, r)
         lines_out.append("VIOLATION property=%s replay=%s" % (pid, path))
         violations = len(unknown_rej)
         rc = 1
